@@ -5,14 +5,14 @@ set -u
 PATCH=$(readlink -f "$1"); DEMO=$(readlink -f "$2"); shift 2
 WT=$(mktemp -d /tmp/wtseed-XXXXXX); rmdir "$WT"
 git -C /repo worktree add -q --detach "$WT" HEAD || exit 2
-trap 'git -C /repo worktree remove --force "$WT" >/dev/null 2>&1; rm -rf "$WT"' EXIT
-echo "== demo without patch"; (cd "$WT" && PYTHONPATH="$WT" timeout 120 /venv/bin/python "$DEMO" >/tmp/seed_demo0.txt 2>&1; echo "exit=$?"; tail -2 /tmp/seed_demo0.txt)
+trap 'git -C /repo worktree remove --force "$WT" >/dev/null 2>&1; rm -rf "$WT" "$WT.demo0" "$WT.demo1"' EXIT
+echo "== demo without patch"; (cd "$WT" && PYTHONPATH="$WT" timeout 120 /venv/bin/python "$DEMO" >$WT.demo0 2>&1; echo "exit=$?"; tail -2 $WT.demo0)
 if ! git -C "$WT" apply "$PATCH" 2>/dev/null; then
   if ! git -C "$WT" apply -3 "$PATCH" 2>/dev/null; then echo "PATCH-DOES-NOT-APPLY"; exit 3; fi
 fi
-echo "== demo with patch"; (cd "$WT" && PYTHONPATH="$WT" timeout 120 /venv/bin/python "$DEMO" >/tmp/seed_demo1.txt 2>&1; echo "exit=$?"; tail -2 /tmp/seed_demo1.txt)
+echo "== demo with patch"; (cd "$WT" && PYTHONPATH="$WT" timeout 120 /venv/bin/python "$DEMO" >$WT.demo1 2>&1; echo "exit=$?"; tail -2 $WT.demo1)
 if [ -z "${SKIP_SUITE:-}" ]; then echo "== suite with patch"; (cd "$WT" && timeout 600 /venv/bin/python -m pytest -q -p no:cacheprovider --color=no -x 2>&1 | tail -1); fi
 for P in "$@"; do
   echo "== check $P (tier ${TIER:-quick})"
-  (cd /verif && VERIF_REPO="$WT" VERIF_EVIDENCE_DIR=/tmp/seed-evidence timeout 3000 ./check "$P" --tier "${TIER:-quick}" 2>&1 | grep -v "^KNOWN-FINDING" | head -12; echo "check-exit=${PIPESTATUS[0]}")
+  (cd /verif && VERIF_REPO="$WT" VERIF_EVIDENCE_DIR=${SEED_EV:-/tmp/seed-evidence} timeout 3000 ./check "$P" --tier "${TIER:-quick}" 2>&1 | grep -v "^KNOWN-FINDING" | head -12; echo "check-exit=${PIPESTATUS[0]}")
 done
